@@ -116,6 +116,9 @@ class Report:
             print('  obligation: %s -- %s' % (v['obligation'], v['detail']))
         print('%s [%s]: %d obligations, %d discharged %s, %d bounded stand-ins, %d violations, %d undecided, %d errors, %.1fs' % (
             self.prop, self.tier, n, d, by_backend, len(self.bounded), len(self.violations), len(self.undecided), len(self.errors), time.time() - self.t0))
+        bad = [o for o in self.obls if o['result'] == 'sat']
+        if len(bad) > len(self.violations) + getattr(self, 'suppressed', 0) + len(self.known_hit):
+            self.errors.append('%d refuted obligations without a violation record: %s' % (len(bad), [o['name'] for o in bad][:6]))
         for e in self.errors: print('ENGINE-ERROR property=%s %s' % (self.prop, e))
         if getattr(self, 'suppressed', 0): print('  (+%d further refuted obligations not replayed separately; see evidence notes)' % self.suppressed)
         if self.violations or getattr(self, 'suppressed', 0): return 1
